@@ -1,0 +1,48 @@
+//go:build verif
+
+// Contracts / lemma functions for the root package's wire messages (properties C12, C15).
+
+package vivid
+
+import "github.com/kercylan98/vivid/internal/messages"
+
+//@ func lemmaRoundTripOnLaunch
+//@   ensures werr == nil && rerr == nil && pos == n && n == 0
+func lemmaRoundTripOnLaunch() (werr, rerr error, pos, n int) {
+	w := messages.NewWriter()
+	werr = onLaunchWriter(&OnLaunch{}, w, nil)
+	data := w.Bytes()
+	r := messages.NewReader(data)
+	rerr = onLaunchReader(&OnLaunch{}, r, nil)
+	return werr, rerr, r.Pos(), len(data)
+}
+
+//@ func lemmaRoundTripPong
+//@   requires m != nil
+//@   ensures werr == nil && rerr == nil && pos == n
+//@   ensures unixnano(out.PingTime) == int64(unixnano(m.PingTime)) && unixnano(out.RespondTime) == int64(unixnano(m.RespondTime))
+func lemmaRoundTripPong(m *Pong) (out *Pong, werr, rerr error, pos, n int) {
+	w := messages.NewWriter()
+	werr = onPongWriter(m, w, nil)
+	data := w.Bytes()
+	r := messages.NewReader(data)
+	out = &Pong{}
+	rerr = onPongReader(out, r, nil)
+	return out, werr, rerr, r.Pos(), len(data)
+}
+
+// OnKilled (and OnKill, same shape) carry an ActorRef: the writer must produce something the reader turns
+// back into a reference to the same actor.
+//@ func lemmaRoundTripOnKilled
+//@   modifies anything
+//@   requires m != nil && m.Ref != nil
+//@   ensures werr == nil && rerr == nil && pos == n && out.Ref != nil
+func lemmaRoundTripOnKilled(m *OnKilled) (out *OnKilled, werr, rerr error, pos, n int) {
+	w := messages.NewWriter()
+	werr = onKilledWriter(m, w, nil)
+	data := w.Bytes()
+	r := messages.NewReader(data)
+	out = &OnKilled{}
+	rerr = onKilledReader(out, r, nil)
+	return out, werr, rerr, r.Pos(), len(data)
+}
